@@ -43,11 +43,13 @@ fn run_job(job: &Sexp) -> String {
         "exhaust" => exhaust::job_exhaust(job),
         "program" => prog::job_program(job),
         "lower" => prog::job_lower(job),
+        "tcheck" => prog::job_tcheck(job),
         "scan" => front::job_scan(job),
         "pretty" => front::job_pretty(job),
         "front" => front::job_front(job),
         "pexpr" => front::job_pexpr(job),
         "pblock" => front::job_pblock(job),
+        "pprog" => front::job_pprog(job),
         "consts" => consts::job_consts(job),
         "opprog" => opprog::job_opprog(job),
         "sortnet" => sortnet::job_sortnet(job),
